@@ -576,12 +576,36 @@ class Runner:
             'src': src_keys, 'samehash': samehash, 'res': res, 'raised': raised,
         }
 
+    def lock_elsewhere(self, step):
+        """Is there a lock file on a pack other than the first one the handle of this step would write to?"""
+        packdir = os.path.join(self.folder, 'packs')
+        locks = {int(n[:-5]) for n in os.listdir(packdir) if n.endswith('.lock') and n[:-5].isdigit()}
+        if not locks:
+            return False
+        self.current = step.get('h', 'h1')
+        pack_id = getattr(self.handle, '_current_pack_id', None) or 0
+        while True:
+            path = os.path.join(packdir, str(pack_id))
+            if not os.path.exists(path) or os.path.getsize(path) < self.cfg['target']:
+                break
+            pack_id += 1
+        return locks != {pack_id}
+
     def run(self, steps):
         lines = []
         first, blobs, rows = self.observe({}, [])
         first['op'] = self.op_record({'name': 'init'}, [], '')
         lines.append(first)
         for step in steps:
+            if step['name'] in ('addpack', 'pack', 'import') and self.lock_elsewhere(step):
+                # a stale lock on a pack other than the one this call starts with (the layout changed since the writer
+                # was killed) would let the call store part of its batch before it is refused; the histories stay with
+                # the clean case: the operator removes such a lock first (an explicit, recorded 'unlock' step)
+                unlock = {'name': 'unlock', 'h': step.get('h', 'h1')}
+                res, raised = self.call(unlock)
+                line, blobs, rows = self.observe(blobs, rows)
+                line['op'] = self.op_record(unlock, res, raised)
+                lines.append(line)
             res, raised = self.call(step)
             line, blobs, rows = self.observe(blobs, rows)
             line['op'] = self.op_record(step, res, raised)
